@@ -1,7 +1,8 @@
 (* C16 — the empirical model reports per-design running statistics of all samples, for every
    history of add_sample / update / clear / flag changes. *)
 From Coq Require Import QArith List Bool Permutation.
-From VOPy Require Import QVec Empirical EmpiricalProofs.
+From VOPy Require Import QVec Empirical EmpiricalProofs EmpRefine.
+From VOPyGen Require Import Gen_emp.
 Import ListNotations.
 Open Scope Q_scope.
 
@@ -37,3 +38,21 @@ Print Assumptions C16_out_of_range_rejected.
 Theorem C16_design_count_invariant : forall st ops, length (e_samples (run st ops)) = length (e_samples st).
 Proof. exact count_invariant. Qed.
 Print Assumptions C16_design_count_invariant.
+
+(* add_sample (its two guards and the per-sample append), clear_data, update (np.mean / np.var per design with the empty and
+   single-sample fallbacks) and predict (the FLAGS decide what is reported) REGENERATED from the source are the steps of the
+   state machine above *)
+Theorem C16_regenerated_methods_are_the_machine_steps : forall st idxs ys i,
+  step st (Add idxs ys) =
+    (if gen_add_raises (length (e_samples st)) idxs ys then (st, false)
+     else (mkemp (e_m st) (e_noise st) (gen_add_store (e_samples st) idxs ys) (e_track_means st) (e_track_vars st) (e_means st) (e_vars st), true)) /\
+  fst (step st Clear) = mkemp (e_m st) (e_noise st) (gen_clear (e_samples st)) (e_track_means st) (e_track_vars st) (e_means st) (e_vars st) /\
+  fst (step st Update) =
+    mkemp (e_m st) (e_noise st) (e_samples st) (e_track_means st) (e_track_vars st)
+          (fst (gen_update (e_m st) (e_noise st) (e_track_means st) (e_track_vars st) (e_samples st)))
+          (snd (gen_update (e_m st) (e_noise st) (e_track_means st) (e_track_vars st) (e_samples st))) /\
+  gen_predict1 (e_m st) (e_track_means st) (e_track_vars st) (e_means st) (e_vars st) i = predict1 st i.
+Proof.
+  intros st idxs ys i. split; [apply gen_add_is_step|]. split; [apply gen_clear_is_step|]. split; [apply gen_update_is_step|apply gen_predict_is_model].
+Qed.
+Print Assumptions C16_regenerated_methods_are_the_machine_steps.
